@@ -76,3 +76,57 @@ def check_amat_x(shapes, seeds, want_rows=None, tol=1e-9):
                                         how='contracts.c02_concrete.check_amat_x: real emg3d.core.amat_x vs A_spec '
                                             '(random widths in [0.5,2], N(0,1) entries, PEC field, given seed)')
     return dict(reproduced=False, cases=cases)
+
+
+def check_volume_model(seeds=(0,), shape=(3, 4, 2)):
+    """real models.VolumeModel coefficients against the documented formulas (all cases, mu_r, epsilon_r, complex/real s)"""
+    import emg3d
+    from scipy.constants import mu_0, epsilon_0
+    cases = 0
+    for seed in seeds:
+        rng = np.random.default_rng(seed)
+        h = [rng.uniform(0.5, 2.0, n) for n in shape]
+        grid = emg3d.TensorMesh(h, origin=(0, 0, 0))
+        vol = h[0][:, None, None] * h[1][None, :, None] * h[2][None, None, :]
+        for case in ('isotropic', 'HTI', 'VTI', 'triaxial'):
+            for mu in (False, True):
+                for eps in (False, True):
+                    for freq in (1.3, -2.1):
+                        cases += 1
+                        sig = {d: rng.uniform(0.1, 3.0, shape) for d in 'xyz'}
+                        kw = dict(property_x=sig['x'].copy(), mapping='Conductivity')
+                        if case in ('HTI', 'triaxial'):
+                            kw['property_y'] = sig['y'].copy()
+                        else:
+                            sig['y'] = sig['x']
+                        if case in ('VTI', 'triaxial'):
+                            kw['property_z'] = sig['z'].copy()
+                        else:
+                            sig['z'] = sig['x']
+                        mur = rng.uniform(0.5, 2.0, shape) if mu else None
+                        er = rng.uniform(1.0, 5.0, shape) if eps else None
+                        if mu:
+                            kw['mu_r'] = mur.copy()
+                        if eps:
+                            kw['epsilon_r'] = er.copy()
+                        model = emg3d.Model(grid, **kw)
+                        sf = emg3d.Field(grid, frequency=freq)
+                        before = {k: (None if getattr(model, k) is None else np.array(getattr(model, k), copy=True))
+                                  for k in ('property_x', 'property_y', 'property_z', 'mu_r', 'epsilon_r')}
+                        vm = emg3d.models.VolumeModel(model, sf)
+                        s = sf.sval
+                        for d in 'xyz':
+                            want = -s * mu_0 * vol * (sig[d] + (s * epsilon_0 * er if eps else 0))
+                            got = getattr(vm, 'eta_' + d)
+                            if np.abs(got - want).max() > 1e-12 * np.abs(want).max():
+                                return dict(reproduced=True, cases=cases, clause=f'eta_{d} == -s mu0 V (sigma_{d} + s eps0 eps_r)', case=case,
+                                            mu_r=mu, epsilon_r=eps, frequency=freq, seed=seed,
+                                            how='contracts.c02_concrete.check_volume_model on the real emg3d.models.VolumeModel')
+                        wz = vol / (mur if mu else 1.0)
+                        if np.abs(vm.zeta - wz).max() > 1e-12 * np.abs(wz).max():
+                            return dict(reproduced=True, cases=cases, clause='zeta == V / mu_r', case=case, mu_r=mu, seed=seed)
+                        for k, b in before.items():
+                            a = getattr(model, k)
+                            if (a is None) != (b is None) or (a is not None and not np.array_equal(a, b)):
+                                return dict(reproduced=True, cases=cases, clause='VolumeModel must not modify the input model', attribute=k, case=case)
+    return dict(reproduced=False, cases=cases)
